@@ -1105,6 +1105,38 @@ def s16_guard_complete(prog, ctx, fns):
                         tests = [q9 for q9 in named if any(pl in ("%s==NULL" % q9, "NULL==%s" % q9, "!%s" % q9, "%s==0" % q9) for pl in plain)]
                         if p9 in tests and len(tests) >= 2:
                             bad.append(p9)
+            # ... and it matters only where the argument is then used without a test of its own (`if (!a && !b) return; if (a) *a = ..;` is fine)
+            def used_bare(p9, f=f, depth=0):
+                for x in f.body.walk():
+                    if x.k != "DeclRefExpr" or x.j.get("name") != p9 or x.j.get("dk") != "param" or (depth == 0 and x.within(st.child("cond"))):
+                        continue
+                    up9 = x.up()
+                    while up9 is not None and up9.k in ("ImplicitCastExpr", "ParenExpr", "CStyleCastExpr"):
+                        up9 = up9.up()
+                    if up9 is None:
+                        continue
+                    use = (up9.k == "UnaryOperator" and up9.j.get("op") == "*") or (up9.k == "MemberExpr" and up9.j.get("arrow")) or \
+                        up9.k == "ArraySubscriptExpr" or (up9.k == "CallExpr" and any(x is a9 or x.within(a9) for a9 in up9.call_args()))
+                    if not use:
+                        continue
+                    if up9.k == "CallExpr" and prog.has_fn(up9.j.get("callee") or "") and depth < 2:
+                        # handed on to a library function: what counts is what that one does with it
+                        g9 = prog.fn(up9.j["callee"])
+                        ai9 = next((k9 for k9, a9 in enumerate(up9.call_args()) if x is a9 or x.within(a9)), None)
+                        if g9.body is None or ai9 is None or ai9 >= len(g9.params) or render(up9.call_args()[ai9]) != p9:
+                            continue
+                        if not used_bare(g9.params[ai9]["name"], g9, depth + 1):
+                            continue
+                    try:
+                        req = f.cfg.required_literals(f.cfg.block_of(x))
+                    except Exception:
+                        return True
+                    if not any(q is not None and ((q.kind == "truth" and q.pol and q.atom == p9) or
+                                                  (q.kind == "eq" and not q.pol and p9 in (render(q.lhs), render(q.rhs)) and (q.lhs.is_null_const() or q.rhs.is_null_const())))
+                               for q in req):
+                        return True
+                return False
+            bad = [p9 for p9 in bad if used_bare(p9)]
             if bad:
                 ctx.fail("S16", "%s: the argument guard covers each argument it names" % f.name, st.child("cond").where,
                          "`%s`: `%s` is refused only together with another argument - alone it passes the guard and is dereferenced behind it" % (
